@@ -681,34 +681,66 @@ Proof.
 Qed.
 
 (* ------------------------------------------------ UpdateClientConnState *)
-Lemma run_updates_fixed : forall l c, run_updates (Some c) l = Some c.
-Proof. induction l; intros c; simpl; auto. Qed.
-
-Lemma run_updates_cons : forall s i l, run_updates s (i :: l) = run_updates (fst (update s i)) l.
-Proof. reflexivity. Qed.
-
-Lemma run_updates_app : forall l1 l2 s, run_updates s (l1 ++ l2) = run_updates (run_updates s l1) l2.
-Proof. intros. unfold run_updates. apply fold_left_app. Qed.
-
-Lemma update_first : forall i, fst (update None i) =
-  match i with InForeign => None | _ => Some (effective (incoming_cfg i)) end.
-Proof. destruct i; reflexivity. Qed.
-
-(* the configuration is whatever the first non-refused update made of its
-   argument, for every sequence of updates before and after it *)
-Theorem config_fixed_once_l : forall l1 i l2,
-  Forall (fun x => x = InForeign) l1 -> i <> InForeign ->
-  run_updates None (l1 ++ i :: l2) = Some (effective (incoming_cfg i)).
+Lemma update_cfg_fixed : forall c p i r, b_cfg (fst (update (mkB (Some c) p) i r)) = Some c.
 Proof.
-  intros l1 i l2 H1 Hi. rewrite run_updates_app.
-  assert (run_updates None l1 = None) as ->.
-  { induction H1; simpl; auto. subst. simpl. exact IHForall. }
-  rewrite run_updates_cons, update_first.
-  destruct i; try congruence; apply run_updates_fixed.
+  intros. unfold update. cbn [b_cfg b_pool]. destruct (p =? 0); [destruct r|]; reflexivity.
 Qed.
 
-Theorem config_never_changes_l : forall l s i e, fst (update s i) = Some e -> run_updates s (i :: l) = Some e.
-Proof. intros l s i e H. rewrite run_updates_cons, H. apply run_updates_fixed. Qed.
+Lemma step_cfg_fixed : forall e s c, b_cfg s = Some c -> b_cfg (step s e) = Some c.
+Proof.
+  intros e [cf p] c H. simpl in H. subst. destruct e; [apply update_cfg_fixed|reflexivity].
+Qed.
+
+Lemma run_steps_fixed : forall l s c, b_cfg s = Some c -> b_cfg (run_steps s l) = Some c.
+Proof.
+  induction l; intros s c H; simpl; auto. apply IHl. apply step_cfg_fixed. exact H.
+Qed.
+
+Lemma run_steps_app : forall l1 l2 s, run_steps s (l1 ++ l2) = run_steps (run_steps s l1) l2.
+Proof. intros. unfold run_steps. apply fold_left_app. Qed.
+
+Lemma update_first_cfg : forall s i r, b_cfg s = None ->
+  b_cfg (fst (update s i r)) = match i with InForeign => None | _ => Some (effective (incoming_cfg i)) end.
+Proof.
+  intros s i r H. unfold update. rewrite H.
+  destruct i; [|exact H|];
+    match goal with |- context [enforce_min ?a ?m ?x] => destruct (enforce_min a m x) as [at_ p] end;
+    destruct (p =? 0); [destruct r| |destruct r|]; reflexivity.
+Qed.
+
+(* steps that cannot fix the configuration: a refused (foreign-type) update, connections going away *)
+Definition no_config_step (e : env_step) : Prop :=
+  match e with
+  | SUpdate InForeign _ => True
+  | SShutdown _ => True
+  | _ => False
+  end.
+
+Lemma run_steps_no_config : forall l s, Forall no_config_step l -> b_cfg s = None -> b_cfg (run_steps s l) = None.
+Proof.
+  induction l; intros s H Hs; simpl; auto. inversion H; subst. apply IHl; auto.
+  destruct a as [i r|n]; simpl in *.
+  - destruct i; try contradiction. rewrite update_first_cfg; auto.
+  - exact Hs.
+Qed.
+
+(* The configuration is whatever the first non-refused update made of its
+   argument - for every sequence of environment steps before it (foreign
+   configs, connections shutting down) and after it (any update with any
+   config, nil config, wrong-type config, with or without SubConn creation
+   working, any number of connections shutting down in between). *)
+Theorem config_fixed_once_l : forall l1 i r l2,
+  Forall no_config_step l1 -> i <> InForeign ->
+  b_cfg (run_steps init_state (l1 ++ SUpdate i r :: l2)) = Some (effective (incoming_cfg i)).
+Proof.
+  intros l1 i r l2 H1 Hi. rewrite run_steps_app.
+  pose proof (run_steps_no_config l1 init_state H1 eq_refl) as Hn.
+  simpl. apply run_steps_fixed. rewrite (update_first_cfg _ i r Hn).
+  destruct i; congruence.
+Qed.
+
+Theorem config_never_changes_l : forall l s e c, b_cfg (step s e) = Some c -> b_cfg (run_steps s (e :: l)) = Some c.
+Proof. intros l s e c H. simpl. apply run_steps_fixed. exact H. Qed.
 
 (* ============================================================ Part 3 *)
 (* ------------------------------------------------ tables as finite maps *)
@@ -828,85 +860,153 @@ Proof.
   apply negb_false_iff in X. exact X.
 Qed.
 
+(* the configuration-related part of an observation *)
+Definition view (ob : uobs) := (ob_cfg ob, ob_table ob, ob_unresp ob).
+
+Lemma view_eqb_eq : forall x y, view_eqb x y = true <-> view x = view y.
+Proof.
+  intros [a1 a2 a3 a4] [b1 b2 b3 b4]. unfold view_eqb, view. simpl.
+  rewrite !andb_true_iff, res_eqb_eq, (list_eqb_eq _ _ aff_pair_eqb_eq), bool_eqb_eq. split.
+  - intros [[-> ->] ->]. reflexivity.
+  - intros E. inversion E; subst. tauto.
+Qed.
+
 (* model state vs monitor state *)
 Definition bal_inv (s : bstate) (fixed prev : option uobs) : Prop :=
-  (s = None /\ fixed = None) \/ (exists e f, s = Some e /\ fixed = Some f /\ prev = Some f).
+  (b_cfg s = None /\ b_pool s = 0 /\ fixed = None) \/
+  (exists e f p, b_cfg s = Some e /\ fixed = Some f /\ prev = Some p /\ view p = view f).
 
 Lemma foreign_dec : forall i, i = InForeign \/ i <> InForeign.
 Proof. destruct i; [right|left|right]; congruence. Qed.
 
-Lemma update_none_spec : forall i, i <> InForeign ->
-  update None i = (Some (effective (incoming_cfg i)),
-                   mkOut false (min_size (pool_of (effective (incoming_cfg i))))
-                               (min_size (pool_of (effective (incoming_cfg i))))).
-Proof. destruct i; intros H; try congruence; reflexivity. Qed.
+Definition incoming_ok (i : incoming) : Prop :=
+  match i with InCfg c => 0 <= min_size (pool_of c) | _ => True end.
 
-Lemma init_event_ok : forall prev i o ob, i <> InForeign ->
+Lemma effective_min_pos : forall i, incoming_ok i -> 1 <= min_size (pool_of (effective (incoming_cfg i))).
+Proof.
+  intros i H. rewrite effective_spec_l. cbv zeta. unfold pool_of at 1. cbn [channel_pool min_size].
+  unfold default_of. destruct i as [how| |c]; cbn [incoming_cfg]; try (cbn; lia).
+  simpl in H. destruct (min_size (pool_of c) =? 0) eqn:E; [lia|]. apply Z.eqb_neq in E. lia.
+Qed.
+
+Lemma update_init_spec : forall s i r, b_cfg s = None -> b_pool s = 0 -> i <> InForeign ->
+  1 <= min_size (pool_of (effective (incoming_cfg i))) ->
+  update s i r =
+  if r then (mkB (Some (effective (incoming_cfg i))) 0, mkOut false 2 0 0)
+  else (mkB (Some (effective (incoming_cfg i))) (min_size (pool_of (effective (incoming_cfg i)))),
+        mkOut false (min_size (pool_of (effective (incoming_cfg i)))) (min_size (pool_of (effective (incoming_cfg i))))
+              (min_size (pool_of (effective (incoming_cfg i))))).
+Proof.
+  intros s i r Hc Hp Hi Hm. unfold update. rewrite Hc, Hp.
+  set (m := min_size (pool_of (effective (incoming_cfg i)))) in *.
+  assert (E : enforce_min 0 m r = if r then (1, 0) else (m, m)).
+  { unfold enforce_min. assert (0 <? m = true) as -> by (apply Z.ltb_lt; lia).
+    destruct r; [reflexivity|]. rewrite Z.sub_0_r. reflexivity. }
+  destruct i; try congruence; fold m; rewrite E; destruct r; cbn [Z.eqb];
+    try reflexivity;
+    (assert (m =? 0 = false) as -> by (apply Z.eqb_neq; lia)); rewrite Z.sub_0_r; reflexivity.
+Qed.
+
+Lemma update_later_spec : forall s e i r, b_cfg s = Some e ->
+  b_cfg (fst (update s i r)) = Some e /\ uo_err (snd (update s i r)) = false.
+Proof.
+  intros [cf p] e i r H. simpl in H. subst. unfold update. cbn [b_cfg b_pool].
+  destruct (p =? 0); [destruct r|]; split; reflexivity.
+Qed.
+
+Lemma init_event_ok : forall prev i r o ob, i <> InForeign ->
   uo_err o = false ->
   ob_cfg ob = Some (effective (incoming_cfg i)) ->
   table_agrees (method_table (effective (incoming_cfg i))) (ob_table ob) = true ->
   ob_unresp ob = unresponsive_enabled (effective (incoming_cfg i)) ->
-  uo_newsub o = min_size (pool_of (effective (incoming_cfg i))) ->
-  ob_pool ob = min_size (pool_of (effective (incoming_cfg i))) ->
-  bal_event_ok None prev (EvUpdate i o true ob) = (true, Some ob).
+  (r = false -> uo_created o = min_size (pool_of (effective (incoming_cfg i))) /\
+                ob_pool ob = min_size (pool_of (effective (incoming_cfg i)))) ->
+  bal_event_ok None prev (EvUpdate i r o true ob) = (true, Some ob).
 Proof.
-  intros prev i o ob Hnf He Hc Ht Hu Hn Hp.
+  intros prev i r o ob Hnf He Hc Ht Hu Hn.
   assert (A : (negb (uo_err o) && true &&
                effective_ok (incoming_cfg i) (effective (incoming_cfg i)) &&
                table_ok (methods (effective (incoming_cfg i))) (ob_table ob) &&
                unresp_ok (effective (incoming_cfg i)) (ob_unresp ob) &&
-               (uo_newsub o =? min_size (pool_of (effective (incoming_cfg i)))) &&
-               (ob_pool ob =? min_size (pool_of (effective (incoming_cfg i)))))%bool = true).
-  { rewrite He, effective_ok_effective, (table_ok_of_agrees _ _ Ht), Hn, Hp, !Z.eqb_refl.
-    unfold unresp_ok. rewrite Hu. unfold unresponsive_enabled. rewrite Bool.eqb_reflx. reflexivity. }
+               (r || ((uo_created o =? min_size (pool_of (effective (incoming_cfg i)))) &&
+                      (ob_pool ob =? min_size (pool_of (effective (incoming_cfg i))))))%bool)%bool = true).
+  { rewrite He, effective_ok_effective, (table_ok_of_agrees _ _ Ht).
+    unfold unresp_ok. rewrite Hu. unfold unresponsive_enabled. rewrite Bool.eqb_reflx.
+    destruct r; [reflexivity|]. destruct (Hn eq_refl) as [-> ->]. rewrite !Z.eqb_refl. reflexivity. }
   unfold bal_event_ok. rewrite Hc. destruct i; try congruence; rewrite A; reflexivity.
 Qed.
 
-Lemma accept_event_ok : forall s fixed prev ev s',
+Definition event_ok (ev : event) : Prop :=
+  match ev with EvUpdate i _ _ _ _ => incoming_ok i | _ => True end.
+
+Lemma accept_event_ok : forall s fixed prev ev s', event_ok ev ->
   bal_inv s fixed prev -> accept_event s prev ev = (None, s') ->
   exists fixed', bal_event_ok fixed prev ev = (true, fixed') /\ bal_inv s' fixed' (Some (ev_obs ev)).
 Proof.
-  intros s fixed prev ev s' Inv H. destruct ev as [i o same ob|ob].
+  intros s fixed prev ev s' Wev Inv H. destruct ev as [i r o same ob|ob|n ob].
   - (* update *)
-    unfold accept_event in H. destruct (update s i) as [s1 mo] eqn:Eu.
+    unfold accept_event in H. destruct (update s i r) as [s1 mo] eqn:Eu.
     match type of H with (first_bad ?l, _) = _ => destruct (first_bad l) eqn:Ef end; [discriminate|].
     inversion H; subst s'. clear H.
-    apply first_bad_none in Ef. rewrite !Forall_cons_iff in Ef. cbn [fst] in Ef.
-    destruct Ef as (H1 & H2 & H3 & H4 & H5 & H6 & H7 & _).
-    subst same.
-    apply andb_true_iff in H6. destruct H6 as [H6 H6c]. apply andb_true_iff in H6. destruct H6 as [H6a _].
-    apply Z.eqb_eq in H6a. apply Z.eqb_eq in H6c.
-    destruct Inv as [[-> ->]|[e [f [-> [-> ->]]]]].
-    + destruct (foreign_dec i) as [->|Hnf].
-      * cbn [update] in Eu. inversion Eu; subst s1 mo. cbn [uo_err uo_newsub uo_updaddr] in *.
-        apply Bool.eqb_prop in H1. apply res_eqb_eq in H3.
-        unfold bal_event_ok. rewrite H3, H1, H6a. eexists. split; [reflexivity|]. left. auto.
-      * rewrite (update_none_spec i Hnf) in Eu. inversion Eu; subst s1 mo.
-        cbn [uo_err uo_newsub uo_updaddr] in *. cbv iota beta in H4, H5.
-        apply Bool.eqb_prop in H1. apply res_eqb_eq in H3. apply Bool.eqb_prop in H5.
-        exists (Some ob). split; [apply init_event_ok; auto|]. right. cbn [ev_obs]. eauto.
-    + cbn [update] in Eu. inversion Eu; subst s1 mo. cbn [uo_err uo_newsub uo_updaddr] in *.
-      apply Bool.eqb_prop in H1. cbv iota beta in H7. apply uobs_eqb_eq in H7. subst ob.
-      unfold bal_event_ok. rewrite H1, H6a.
-      assert (uobs_eqb f f = true) as -> by (apply uobs_eqb_eq; reflexivity).
-      eexists. split; [reflexivity|]. right. cbn [ev_obs]. eauto.
+    apply first_bad_none in Ef. unfold obs_checks in Ef. cbn [app] in Ef.
+    rewrite !Forall_cons_iff in Ef. cbn [fst] in Ef.
+    destruct Ef as (H1 & H2 & H3 & H4 & H5 & H6 & H7 & H8 & _).
+    subst same. apply Bool.eqb_prop in H1. apply res_eqb_eq in H3. apply Z.eqb_eq in H6.
+    apply andb_true_iff in H7. destruct H7 as [H7 _]. apply andb_true_iff in H7. destruct H7 as [_ H7].
+    apply Z.eqb_eq in H7.
+    destruct Inv as [(Hc & Hp & ->)|(e & f & p & Hc & -> & -> & Hv)].
+    + rewrite Hc in H8. cbn [is_some] in *.
+      destruct (foreign_dec i) as [->|Hnf].
+      * unfold update in Eu. rewrite Hc in Eu. inversion Eu; subst s1 mo.
+        cbn [uo_err uo_created] in *. rewrite Hc in *.
+        unfold bal_event_ok. rewrite H3, H1, H7. eexists. split; [reflexivity|]. left. auto.
+      * rewrite (update_init_spec s i r Hc Hp Hnf (effective_min_pos i Wev)) in Eu.
+        exists (Some ob). split.
+        { apply init_event_ok; auto.
+          - destruct r; inversion Eu; subst mo; exact H1.
+          - destruct r; inversion Eu; subst s1; exact H3.
+          - destruct r; inversion Eu; subst s1; cbn [b_cfg] in H4; exact H4.
+          - destruct r; inversion Eu; subst s1; cbn [b_cfg] in H5; apply Bool.eqb_prop in H5; exact H5.
+          - intros ->. inversion Eu; subst s1 mo. cbn [uo_created b_pool] in *. auto. }
+        { right. exists (effective (incoming_cfg i)), ob, ob. cbn [ev_obs].
+          destruct r; inversion Eu; subst s1; auto. }
+    + destruct (update_later_spec s e i r Hc) as [Hc1 He1]. rewrite Eu in Hc1, He1. cbn [fst snd] in Hc1, He1.
+      rewrite Hc in H8. cbn [is_some] in H8. apply view_eqb_eq in H8.
+      unfold bal_event_ok. rewrite H1, He1. cbn [negb andb].
+      assert (view_eqb ob f = true) as -> by (apply view_eqb_eq; congruence).
+      eexists. split; [reflexivity|]. right. exists e, f, ob. cbn [ev_obs]. repeat split; auto. congruence.
   - (* mutate *)
     unfold accept_event in H.
     match type of H with (first_bad ?l, _) = _ => destruct (first_bad l) eqn:Ef end; [discriminate|].
     inversion H; subst s'. clear H.
     apply first_bad_none in Ef. rewrite !Forall_cons_iff in Ef. cbn [fst] in Ef. destruct Ef as (H1 & _).
     unfold bal_event_ok. rewrite H1. eexists. split; [reflexivity|].
-    destruct Inv as [[-> ->]|[e [f [-> [-> ->]]]]].
+    destruct Inv as [(Hc & Hp & ->)|(e & f & p & Hc & -> & -> & Hv)].
     + left. auto.
-    + apply uobs_eqb_eq in H1. subst. right. cbn [ev_obs]. eauto.
+    + apply uobs_eqb_eq in H1. subst. right. exists e, f, p. cbn [ev_obs]. auto.
+  - (* shutdown *)
+    unfold accept_event in H.
+    match type of H with (first_bad ?l, _) = _ => destruct (first_bad l) eqn:Ef end; [discriminate|].
+    inversion H; subst s'. clear H.
+    apply first_bad_none in Ef. unfold obs_checks in Ef. cbn [app] in Ef.
+    rewrite !Forall_cons_iff in Ef. cbn [fst] in Ef.
+    destruct Ef as (H3 & H4 & H5 & H6 & H8 & _).
+    apply res_eqb_eq in H3. cbn [shutdown b_cfg] in H3.
+    destruct Inv as [(Hc & Hp & ->)|(e & f & p & Hc & -> & -> & Hv)].
+    + unfold bal_event_ok. rewrite H3, Hc. eexists. split; [reflexivity|]. left.
+      unfold shutdown. cbn [b_cfg b_pool]. repeat split; auto. rewrite Hp. lia.
+    + apply view_eqb_eq in H8. unfold bal_event_ok.
+      assert (view_eqb ob f = true) as -> by (apply view_eqb_eq; congruence).
+      eexists. split; [reflexivity|]. right. exists e, f, ob. cbn [ev_obs shutdown b_cfg]. repeat split; auto. congruence.
 Qed.
 
-Lemma accept_events_ok : forall evs k s fixed prev,
+Lemma accept_events_ok : forall evs k s fixed prev, Forall event_ok evs ->
   bal_inv s fixed prev -> accept_events k s prev evs = None -> bal_ok fixed prev evs = true.
 Proof.
-  induction evs; intros k s fixed prev Inv H; simpl; auto.
+  induction evs; intros k s fixed prev W Inv H; simpl; auto.
+  inversion W; subst.
   simpl in H. destruct (accept_event s prev a) as [[cl|] s'] eqn:E; [discriminate|].
-  destruct (accept_event_ok _ _ _ _ _ Inv E) as [fixed' [H1 H2]].
+  destruct (accept_event_ok _ _ _ _ _ H2 Inv E) as [fixed' [H1 H4]].
   rewrite H1. simpl. eapply IHevs; eauto.
 Qed.
 
@@ -914,6 +1014,7 @@ Definition case_wf (c : case) : Prop :=
   match c with
   | CRender cfg _ _ => wf cfg
   | CGcp input _ => wf_opt input
+  | CBalancer _ _ _ evs => Forall event_ok evs     (* minSize of a supplied config is not negative *)
   | _ => True
   end.
 
@@ -939,7 +1040,7 @@ Proof.
     apply first_bad_none in Ef. rewrite !Forall_cons_iff in Ef. cbn [fst] in Ef. destruct Ef as (C1 & C2 & _).
     rewrite (parse_render_roundtrip_l cfg W) in C2. exact C2.
   - destruct ((dmin =? defaultMinSize) && (dmax =? defaultMaxSize) && (dstreams =? defaultMaxStreams))%bool; [|discriminate].
-    eapply accept_events_ok; [|exact H]. left. auto.
+    eapply accept_events_ok; [exact W| |exact H]. left. auto.
   - match type of H with match first_bad ?l with _ => _ end = _ => destruct (first_bad l) eqn:Ef end; [discriminate|].
     apply first_bad_none in Ef. rewrite !Forall_cons_iff in Ef. cbn [fst] in Ef. destruct Ef as (C1 & C2 & _).
     unfold gcp_ok. rewrite (service_config_spec input W) in C2. rewrite C2, andb_true_r. exact C1.
